@@ -20,6 +20,7 @@ import (
 //	"eofload"  a = value of readEOF loaded by the read task
 //	"eofstore" the poller has stored readEOF = 1
 //	"read"     a = len of the buffer offered to read(2), b = its result n, ok = no error
+//	"rearm"    the read task has re-armed the one-shot descriptor (ResetPollerEvent returned)
 //
 // It is nil except while the gate tier of the readpath harness runs (no engine is running then).
 var VerifReadHook func(c *Conn, op string, a, b int, ok bool)
@@ -60,6 +61,13 @@ func verifEOFStore(c *Conn) {
 	verifsched.StoreInt32(&c.readEOF, 1)
 	if h := VerifReadHook; h != nil {
 		h(c, "eofstore", 1, 0, true)
+	}
+}
+
+func verifRearm(c *Conn) {
+	c.ResetPollerEvent()
+	if h := VerifReadHook; h != nil {
+		h(c, "rearm", 0, 0, true)
 	}
 }
 
